@@ -1,7 +1,7 @@
 (* C17 — FASTA output reads back identically.
    fasta_format = Fasta.WriteTo (70-column wrap.Force), fasta_parser =
    FastaParser on the faithful pars model, scan_fasta = the Scanner loop. *)
-From GTS Require Import Base Pars ParsLemmas Fasta FastaProofs GbFasta.
+From GTS Require Import Base Pars ParsLemmas Fasta FastaProofs GbFasta FastaCRLF.
 Open Scope Z_scope.
 
 (* one record, followed by the end of input or by another record: read back
@@ -29,6 +29,22 @@ Theorem C17_unwrap : forall fuel data, (length data <= fuel)%nat ->
   fasta_body_data (wrap_force fuel data 70 ++ [10]) = data.
 Proof. exact body_data. Qed.
 Print Assumptions C17_unwrap.
+
+(* CRLF input, the residue half: with every LF of the written body replaced by
+   CR LF (crlf = bytes.ReplaceAll "\n" -> "\r\n"), the reader's newline
+   removal still returns exactly the residues, for every residue count *)
+Theorem C17_unwrap_crlf : forall fuel data, (length data <= fuel)%nat ->
+  no_byte 10 data -> no_byte 13 data ->
+  fasta_body_data (crlf (wrap_force fuel data 70 ++ [10])) = data.
+Proof. exact body_data_crlf. Qed.
+Print Assumptions C17_unwrap_crlf.
+
+Example C17_unwrap_crlf_example :
+  let p := repeat 97 141 in
+  crlf (wrap_force 141 p 70 ++ [10]) =
+    repeat 97 70 ++ [13; 10] ++ repeat 97 70 ++ [13; 10] ++ [97; 13; 10] /\
+  fasta_body_data (crlf (wrap_force 141 p 70 ++ [10])) = p.
+Proof. vm_compute. split; reflexivity. Qed.
 
 (* second sentence of the property: a GenBank record written as FASTA
    (gb_to_fasta = FastaWriter.WriteSeq with GenBankFields.String as the
